@@ -23,7 +23,7 @@ from ..core import Clause, Violation, close
 from . import _graph as G
 from . import _img as I
 
-RULE = ("A history = a pool of inputs (2..4 diagrams held as float array, integer array or nested list; 2 graphs as dense / sparse / nested-list "
+RULE = ("A history = a pool of inputs (2..4 diagrams held as float64 array, float32 array, integer array or nested list; one diagram with infinite deaths held as float64 or float32 array; 2 graphs as dense / sparse / nested-list "
         "adjacency) + a generated list of calls to the public entry points (distances with and without matchings, heat, sliced Wasserstein, entropy, "
         "mGH pair and collection, both imagers incl. plots, exact / grid landscapes and their arithmetic, norms, tools, transformer, diagram / "
         "matching / landscape plots, kernels and weights). Every pooled input is snapshotted at creation (dtype, shape, bytes; deep copy for lists; "
@@ -38,7 +38,7 @@ ASSUMPTIONS = [
     "diagrams have integer coordinates (so that an integer-array form with equal values exists) and strictly positive persistence",
 ]
 
-FORMS = ["float", "int", "list"]
+FORMS = ["float", "int", "list", "float32"]
 
 
 def as_form(pts, form):
@@ -46,6 +46,8 @@ def as_form(pts, form):
         return np.array(pts, dtype=float)
     if form == "int":
         return np.array(pts, dtype=np.int64)
+    if form == "float32":
+        return np.array(pts, dtype=np.float32)
     return [[int(b), int(d)] for b, d in pts]
 
 
@@ -276,8 +278,46 @@ def e_kernels(a, o):
     return out
 
 
-ALL3 = ("float", "int", "list")
-ARR2 = ("float", "int")
+def i_entropy(d, o):
+    if o.get("keep", False):
+        return persistent_entropy(d, keep_inf=True, val_inf=o.get("val", 50.0), normalize=o.get("normalize", False))
+    return persistent_entropy(d, keep_inf=False, normalize=o.get("normalize", False))
+
+
+def i_plot(d, o):
+    plt.close("all")
+    fig, ax = plt.subplots()
+    with warnings.catch_warnings():
+        warnings.simplefilter("ignore")
+        plot_diagrams([d, d] if o.get("twice") else d, lifetime=o.get("lifetime", False), ax=ax)
+    colls = [c.get_offsets().copy() for c in ax.collections]
+    plt.close("all")
+    return [np.asarray(c, dtype=float) for c in colls]
+
+
+def i_bottleneck(d, o):
+    return bottleneck(d, np.array([[0.0, 2.0], [1.0, 5.0]]))
+
+
+def i_wasserstein(d, o):
+    return wasserstein(np.array([[0.0, 2.0], [1.0, 5.0]]), d)
+
+
+def i_approx(d, o):
+    return PersLandscapeApprox(dgms=[d], hom_deg=0, num_steps=o.get("num_steps", 15))
+
+
+def i_death(d, o):
+    return [float(x) for x in death_vector([d])]
+
+
+INF_ENTRIES = {"entropy_inf": i_entropy, "plot_diagrams_inf": i_plot, "bottleneck_inf": i_bottleneck, "wasserstein_inf": i_wasserstein,
+               "approx_landscape_inf": i_approx, "death_vector_inf": i_death}
+INF_OPTS = st.fixed_dictionaries({"keep": st.booleans(), "val": st.sampled_from([50.0, 20.0]), "normalize": st.booleans(), "lifetime": st.booleans(),
+                                  "twice": st.booleans(), "num_steps": st.sampled_from([10, 25])})
+
+ALL3 = ("float", "int", "list", "float32")
+ARR2 = ("float", "int", "float32")
 ENTRIES = {
     "bottleneck": (e_bottleneck, ALL3), "wasserstein": (e_wasserstein, ALL3), "heat": (e_heat, ALL3), "sliced_wasserstein": (e_sliced, ARR2),
     "persistent_entropy": (e_entropy, ARR2), "imager_transform": (e_imager_transform, ALL3), "imager_fit_transform": (e_imager_fit_transform, ARR2),
@@ -329,7 +369,9 @@ def pooled_diagram(draw):
 
 @st.composite
 def op(draw):
-    kind = draw(st.sampled_from(["call"] * 6 + ["repeat"] * 2 + ["graph"]))
+    kind = draw(st.sampled_from(["call"] * 6 + ["repeat"] * 2 + ["graph"] + ["inf"] * 2))
+    if kind == "inf":
+        return {"kind": "inf", "fn": draw(st.sampled_from(sorted(INF_ENTRIES))), "opt": draw(INF_OPTS)}
     if kind == "repeat":
         return {"kind": "repeat", "k": draw(st.integers(0, 40))}
     if kind == "graph":
@@ -341,6 +383,7 @@ def op(draw):
 @st.composite
 def history(draw, max_ops=15):
     return {"dgms": [draw(pooled_diagram()) for _ in range(draw(st.integers(2, 4)))],
+            "inf": {"pts": draw(pooled_diagram())["pts"], "n_inf": draw(st.integers(1, 2)), "form": draw(st.sampled_from(["float", "float32"]))},
             "graphs": [{"g": draw(G.connected_graph(2, 6)), "fmt": draw(st.sampled_from(G.FORMATS)), "sym": draw(st.booleans())} for _ in range(2)],
             "ops": [draw(op()) for _ in range(draw(st.integers(3, max_ops)))]}
 
@@ -349,6 +392,12 @@ def run_history(case, ctx):
     pool = [as_form(d["pts"], d["form"]) for d in case["dgms"]]
     forms = [d["form"] for d in case["dgms"]]
     graphs = [G.adjacency(g["g"], g["fmt"], g["sym"]) for g in case["graphs"]]
+    def inf_array(form):
+        rows = [[float(b), float(d)] for b, d in case["inf"]["pts"]] + [[float(case["inf"]["pts"][i][0]), float("inf")] for i in range(case["inf"]["n_inf"])]
+        return np.array(rows, dtype=np.float32 if form == "float32" else float)
+
+    infd = inf_array(case["inf"]["form"])
+    inf_snap = snapshot(infd)
     snaps = [snapshot(x) for x in pool]
     gsnaps = [snapshot(x) for x in graphs]
     log = []           # (description, thunk, digest)
@@ -361,6 +410,8 @@ def run_history(case, ctx):
                         lambda: "after %s: pooled diagram %d (%s form) changed: now %r" % (step, i, forms[i], x if isinstance(x, list) else x.tolist()))
         for i, x in enumerate(graphs):
             ctx.require(snapshot(x) == gsnaps[i], "argument_modified", lambda: "after %s: pooled graph %d (%s) changed" % (step, i, case["graphs"][i]["fmt"]))
+        ctx.require(snapshot(infd) == inf_snap, "argument_modified",
+                    lambda: "after %s: the pooled %s diagram with infinite deaths changed: now %s" % (step, case["inf"]["form"], infd.tolist()))
 
     def guarded(thunk):
         with warnings.catch_warnings():
@@ -376,6 +427,24 @@ def run_history(case, ctx):
             n_repeat += 1
             ctx.require(again == dig, "not_repeatable", lambda: "op %d: repeating '%s' after %d other calls gives a different result" % (n, desc, len(log)))
             check_pool("repeat of " + desc)
+            continue
+        if o["kind"] == "inf":
+            f = INF_ENTRIES[o["fn"]]
+            opt = o["opt"]
+
+            def thunk(f=f, opt=opt):
+                return f(infd, opt)
+            desc = "%s(%s diagram with %d infinite deaths, %s)" % (o["fn"], case["inf"]["form"], case["inf"]["n_inf"], opt)
+            res = guarded(thunk)
+            log.append((desc, thunk, digest(res)))
+            used.add(o["fn"])
+            check_pool(desc)
+            other_form = "float" if case["inf"]["form"] == "float32" else "float32"
+            alt = inf_array(other_form)
+            keep = snapshot(alt)
+            guarded(lambda: f(alt, opt))
+            n_swap += 1
+            ctx.require(snapshot(alt) == keep, "argument_modified", lambda: "%s modified its %s argument (diagram with infinite deaths)" % (o["fn"], other_form))
             continue
         if o["kind"] == "graph":
             seed = o["seed"]
@@ -425,10 +494,16 @@ def run_history(case, ctx):
             n_swap += 1
             ctx.require([snapshot(x) for x in args] == keep, "argument_modified",
                         lambda: "%s modified its %s-form argument" % (o["fn"], form))
-            ok = len(other) == len(base) and all((math.isnan(u) and math.isnan(v)) or close(u, v, max(1.0, abs(u))) for u, v in zip(base, other))
+            if "float32" in (form, fa, fb):
+                # single-precision arrays are exercised for purity and repeatability only: the statement names lists, integer and
+                # floating-point arrays of EQUAL value, and single-precision arithmetic inside a routine (e.g. a float32 grid whose
+                # half-way ties fall the other way) is a different computation, not a different representation of the same one
+                continue
+            rel = 1e-9
+            ok = len(other) == len(base) and all((math.isnan(u) and math.isnan(v)) or close(u, v, max(1.0, abs(u)), rel=rel) for u, v in zip(base, other))
             ctx.require(ok, "representation_dependent",
                         lambda: "%s: result for %s-form inputs differs from %s/%s-form inputs (%d vs %d numbers; first difference %s)"
-                        % (o["fn"], form, fa, fb, len(other), len(base), next(((u, v) for u, v in zip(base, other) if not close(u, v, max(1.0, abs(u)))), None)))
+                        % (o["fn"], form, fa, fb, len(other), len(base), next(((u, v) for u, v in zip(base, other) if not close(u, v, max(1.0, abs(u)), rel=rel)), None)))
     ctx.label("entry_points=%d" % min(len(used), 8), *("fn:" + u for u in sorted(used)))
     ctx.nontrivial(len(case["ops"]) >= 6 and len(used) >= 4 and n_repeat >= 1 and n_swap >= 1)
 
@@ -449,6 +524,9 @@ def VALID_DEFAULT(case):
         for o in case["ops"]:
             if o["kind"] == "call" and o["fn"] not in ENTRIES:
                 return False
+        i = case["inf"]
+        if len(i["pts"]) < 2 or i["n_inf"] < 1 or any(len(p) != 2 or not p[1] > p[0] for p in i["pts"]) or i["form"] not in ("float", "float32"):
+            return False
     except Exception:
         return False
     return True
@@ -456,7 +534,7 @@ def VALID_DEFAULT(case):
 
 CLAUSES = [
     Clause("history", history(15), run_history, quick=640, thorough=8000,
-           rule="3..15 steps over 19 diagram entry points + 2 graph entry points; non-trivial = >= 6 steps, >= 4 distinct entry points, at least "
+           rule="3..15 steps over 19 diagram entry points, 6 entry points fed the diagram with infinite deaths, + 2 graph entry points; non-trivial = >= 6 steps, >= 4 distinct entry points, at least "
                 "one repeat and one representation swap"),
     Clause("long_history", history(40), run_history, quick=64, thorough=1600,
            rule="as history with up to 40 steps"),
